@@ -53,6 +53,8 @@ type traceCache struct {
 	// what each job of a concurrent mix was told by the cache (the oracle answers of
 	// Model/AuthConc.v) and what it stored
 	reads map[int]*jobReads
+	// onShared is called when Set hands a job the result of ANOTHER call's fetch
+	onShared func(job int, scheme auth.Scheme, tok string)
 }
 
 type jobReads struct {
@@ -165,10 +167,15 @@ func (t *traceCache) Set(ctx context.Context, registry string, scheme auth.Schem
 	} else {
 		t.add(setLog{kind: 'R', call: id, val: tok})
 		t.mu.Lock()
+		shared := false
 		if r := t.job(ctx); r != nil {
 			r.sets = append(r.sets, tokRead{scheme, key, tok, true})
+			shared = !r.fetched
 		}
 		t.mu.Unlock()
+		if jb, ok := ctx.Value(jobKey{}).(int); ok && shared && t.onShared != nil {
+			t.onShared(jb, scheme, tok)
+		}
 	}
 	return tok, err
 }
